@@ -234,12 +234,18 @@ impl UnifiedDiff {
                         lines
                             .iter()
                             .map(|(i, l)| {
-                                Ok((
+                                // a line that is not valid UTF-8 is shown in the escaped
+                                // form that an update would write
+                                let line: &[u8] = l;
+                                let line = line.trim_newlines();
+                                (
                                     *i,
-                                    String::from_utf8((l as &[u8]).trim_newlines().to_vec())?,
-                                ))
+                                    String::from_utf8(line.to_vec()).unwrap_or_else(|_| {
+                                        outcome.escaping.escaped_expectation(line)
+                                    }),
+                                )
                             })
-                            .collect::<Result<Vec<_>>>()?,
+                            .collect::<Vec<_>>(),
                     );
                     if self.unmatched_start.is_some() {
                         add_diff_hunk!();
